@@ -108,6 +108,30 @@ def codec_part(spec, acc):
                 acc.addmap("codec_refusals", "forced:" + type(e).__name__)
                 if sess.next_num_out != n_before:
                     acc.violation("refusal-consumed-a-number", f"counter {n_before} -> {sess.next_num_out}", witness, cid)
+        if c >= 0 and rnd.random() < 0.06:
+            # a value (or the message type) that contains the field separator cannot be represented: refused, or at least never
+            # written out as a frame an independent parser rejects
+            sv = rnd.choice(["a\x01b", "x\x0110=000\x01", "\x01", "tail\x01", "\x0135=8", "v\x019=5"])
+            where = rnd.choice(["plain", "plain", "group", "msgtype"])
+            try:
+                if where == "plain":
+                    bad = FIXMessage("D", {11: "soh", rnd.choice([58, 1, 55]): sv})
+                elif where == "group":
+                    bad = FIXMessage("D", {11: "soh"})
+                    bad.set_group(453, [{448: "p1", 447: "D"}, {448: sv, 447: "D"}])
+                else:
+                    bad = FIXMessage("D" + sv, {11: "soh"})
+                out = codec.encode(bad, sess).encode("utf-8")
+            except Exception as e:
+                acc.oracle("codec-refusal")
+                acc.addmap("codec_refusals", f"soh-in-{where}:" + type(e).__name__)
+            else:
+                acc.add("soh_values_encoded")
+                try:
+                    fixwire.parse(out)
+                except fixwire.FrameError as e:
+                    acc.violation("unrepresentable-message-transmitted:separator-inside-a-value", f"{where} value {sv!r} was encoded into a frame an independent "
+                                  f"parser rejects ({e}): " + fixwire.show(out)[:200], witness, cid)
         try:
             wire = codec.encode(msg, sess).encode("utf-8")
         except Exception as e:
